@@ -55,7 +55,9 @@ NAME_PARTS = ['Top', 'Chair Side', 'a.b', "it's", 'Desk #1', '{x}', '[1]',
               '(z)', 'x;y', 'tab\there', 'Lamp', 'Strip', 'Candle',
               # control characters that are not line breaks
               'form\x0cfeed', 'v\x0btab', 'fs\x1cgs\x1drs\x1eus\x1f', 'bell\x07',
-              'nbsp\xa0x', 'zero\u200bwidth']
+              'nbsp\xa0x', 'zero\u200bwidth',
+              # names that are nothing but white space
+              ' ', '   ', '\t ', '\xa0', ' \t\xa0 ']
 
 
 def random_name(rng, used):
